@@ -71,6 +71,13 @@ func c17ProgramB(r *run.Rng) []rec.Op {
 		ops = append(ops, rec.Op{K: rec.KSetCSel, Sel: 5}, rec.Op{K: rec.KSetCReg, Col: ivg.RGBAColor(gen.MakeGradientValue(30, 30, r.Intn(2), r.Intn(4), nst))})
 		ops = append(ops, rec.Op{K: rec.KStartPath, F: [6]float32{-20, -20}}, rec.Op{K: rec.KAbsLineTo, F: [6]float32{20, -20}}, rec.Op{K: rec.KAbsLineTo, F: [6]float32{0, 20}}, rec.Op{K: rec.KClosePathEndPath})
 	}
+	// a gradient with fewer than two stops, all registers at their defaults: what
+	// the Renderer does with it is unspecified, but it must not depend on whether
+	// an earlier graphic painted a gradient
+	if r.Chance(1, 3) {
+		ops = append(ops, rec.Op{K: rec.KSetCSel, Sel: 6}, rec.Op{K: rec.KSetCReg, Col: ivg.RGBAColor(gen.MakeGradientValue(40, 40, r.Intn(2), r.Intn(4), r.Intn(2)))})
+		ops = append(ops, rec.Op{K: rec.KStartPath, F: [6]float32{-10, -10}}, rec.Op{K: rec.KAbsLineTo, F: [6]float32{10, -10}}, rec.Op{K: rec.KAbsLineTo, F: [6]float32{0, 10}}, rec.Op{K: rec.KClosePathEndPath})
+	}
 	// blends and references of unwritten registers
 	ops = append(ops, rec.Op{K: rec.KSetCSel, Sel: uint8(r.Intn(64))}, rec.Op{K: rec.KSetCReg, Adj: uint8(r.Intn(7)), Col: ivg.BlendColor(r.Byte(), 0xc0|uint8(r.Intn(64)), 0x80|uint8(r.Intn(64)))})
 	ops = append(ops, rec.Op{K: rec.KStartPath, Adj: uint8(r.Intn(7)), F: [6]float32{coord(r), coord(r)}}, gen.DrawOp(r, gen.DrawVerbs[r.Intn(len(gen.DrawVerbs))], &o), rec.Op{K: rec.KClosePathEndPath})
@@ -90,6 +97,14 @@ func c17HistoryA(c *run.Ctx, r *run.Rng) (ops []rec.Op, hires bool, kind string)
 	ops = append(ops, rec.Op{K: rec.KSetCSel, Sel: uint8(r.Intn(64))}, rec.Op{K: rec.KSetNSel, Sel: uint8(r.Intn(64))}, rec.Op{K: rec.KSetLOD, F: [6]float32{float32(r.Intn(50)), float32(r.Range(50, 900))}})
 	for n := r.Range(1, 70); n > 0; n-- {
 		ops = append(ops, rec.Op{K: rec.KSetNReg, Incr: true, F: [6]float32{float32(r.Uniform(-2, 2))}}, rec.Op{K: rec.KSetCReg, Incr: true, Col: gen.Color(r)})
+	}
+	if r.Bool() {
+		// history A has painted a valid two-stop gradient (its paint object, ranges and caches are warm)
+		ops = append(ops, rec.Op{K: rec.KSetNSel, Sel: 50}, rec.Op{K: rec.KSetNReg, Adj: 6, F: [6]float32{0.02}}, rec.Op{K: rec.KSetNReg, Incr: true, F: [6]float32{0}}, rec.Op{K: rec.KSetNReg, Incr: true, F: [6]float32{1}},
+			rec.Op{K: rec.KSetCSel, Sel: 50}, rec.Op{K: rec.KSetCReg, Incr: true, Col: ivg.RGBAColor(color.RGBA{0xff, 0, 0, 0xff})}, rec.Op{K: rec.KSetCReg, Incr: true, Col: ivg.RGBAColor(color.RGBA{0, 0, 0xff, 0xff})},
+			rec.Op{K: rec.KSetCSel, Sel: 3}, rec.Op{K: rec.KSetCReg, Col: ivg.RGBAColor(gen.MakeGradientValue(50, 50, 0, 1, 2))}, rec.Op{K: rec.KSetLOD, F: [6]float32{0, float32(math.Inf(1))}},
+			rec.Op{K: rec.KStartPath, F: [6]float32{-9, -9}}, rec.Op{K: rec.KAbsLineTo, F: [6]float32{9, -9}}, rec.Op{K: rec.KAbsLineTo, F: [6]float32{0, 9}}, rec.Op{K: rec.KClosePathEndPath})
+		c.Count("A_painted_a_gradient", 1)
 	}
 	hires = r.Chance(1, 3)
 	if hires {
